@@ -2345,7 +2345,11 @@ FROM (
                 return quote_name(v_name)
             return vp_group_sql_windowed(v_rule, quote_name(v_name), vp_over_clause)
 
-        name_override = "int_var" if op == tokens.COUNT else None
+        # Analytic.validate renames the measure to int_var only when the operand has at most
+        # one measure; with several measures every measure keeps its name.
+        operand_ds = self._get_dataset_structure(node.operand) if node.operand else None
+        single_measure = operand_ds is None or len(operand_ds.get_measures_names()) <= 1
+        name_override = "int_var" if op == tokens.COUNT and single_measure else None
         result = self._apply_measures(
             node.operand, _analytic_expr, name_override, viral_expr_fn=_viral_expr
         )
